@@ -73,6 +73,12 @@ M = [
  ("c14_skip_bits_keeps_buf", "C14", "buf-not-cleared-before-skip", "crates/jxl-bitstream/src/bitstream.rs",
   "        self.num_read_bits += self.remaining_buf_bits;\n        self.buf = 0;\n        self.remaining_buf_bits = 0;",
   "        self.num_read_bits += self.remaining_buf_bits;\n        self.buf >>= self.remaining_buf_bits;\n        self.remaining_buf_bits = 0;"),
+ ("c09_eof_exit_without_carry", "C09", "return-without-carry", "crates/jxl-oxide/src/lib.rs",
+  "                Err(e) if e.unexpected_eof() => {\n                    self.buffer = buf.to_vec();\n                    return Ok(());\n                }\n                Err(e) => {\n                    return Err(e.into());\n                }\n            };\n            let frame_index = frame.index();",
+  "                Err(e) if e.unexpected_eof() => {\n                    return Ok(());\n                }\n                Err(e) => {\n                    return Err(e.into());\n                }\n            };\n            let frame_index = frame.index();"),
+ ("c09_feed_returns_len", "C09", "returns-consumed", "crates/jxl-oxide/src/lib.rs",
+  "                    self.inner.aux_boxes.handle_event(aux_box_event)?;\n                }\n            }\n        }\n        Ok(self.reader.previous_consumed_bytes())",
+  "                    self.inner.aux_boxes.handle_event(aux_box_event)?;\n                }\n            }\n        }\n        Ok(buf.len())"),
  ("c13_forget_handle", "C13", "leak", "crates/jxl-frame/src/lib.rs",
   "            self.handle = Some(handle);", "            std::mem::forget(handle);"),
 ]
